@@ -32,6 +32,7 @@ import (
 	"os"
 	"runtime"
 	"sort"
+	"strconv"
 	"strings"
 	"sync"
 	"sync/atomic"
@@ -307,6 +308,9 @@ func (a *c18Arena) runCycle() {
 	// pass finish; the small budgets keep the cost of the livelocked cycles bounded (each move
 	// copies 256 KiB twice, and a livelocked cycle may move a single vector per iteration).
 	a.up.budget = vkit.Pick(a.cs.R, []int{3, 10, 10, 40, 40, 150, 150, 400})
+	if v, err := strconv.Atoi(os.Getenv("C18_ARENA_BUDGET")); err == nil && v > 0 {
+		a.up.budget = v // experiment knob: e.g. a huge value to see whether every RunCycle terminates by itself
+	}
 	a.ac.RunCycle()
 	a.ac.draining.Store(false)
 	if a.up.bad != "" {
@@ -735,9 +739,20 @@ func c18Concurrent(ctx *vkit.Ctx, cs *vkit.Case, withWriters bool) {
 		budgets[i] = int64(vkit.Pick(r, choices))
 	}
 	cs.Op("concurrent phase: %d readers, %d cycles with relocation budgets %v", nReaders, ncycles, budgets)
-	for c := 0; c < ncycles; c++ {
+	// At least ncycles cycles; more (same budgets again, at most 30x) until the readers have
+	// completed a minimum number of observations, so that a fast compactor does not end the
+	// phase before the readers overlapped it. The stop rule counts work, never time.
+	minReads := int64(20000)
+	if c18Race {
+		minReads = 4000
+	}
+	for c := 0; c < 30*ncycles; c++ {
+		if c >= ncycles && verified.Load()+discarded.Load() >= minReads {
+			break
+		}
+		ctx.Count("conc.cycles", 1)
 		up.cycle.Store(0)
-		up.budget.Store(budgets[c])
+		up.budget.Store(budgets[c%ncycles])
 		if gated {
 			gate.Lock()
 		}
